@@ -14,8 +14,8 @@ Reference rules for the additions (independent of the model, plain `Nat`):
   scalar (`row_major` / `column_major` only permute the elements).  Metal: the compiler emits
   `metal::S{C}x{R}` = C columns, each an R-component vector with the vector's size and alignment; Metal has
   matrices of `half` and `float` with 2–4 rows and columns only — other matrices have no reference layout.
-* an empty struct occupies no bytes in HLSL and one byte in Metal (C++); such types are outside `xwf`
-  (the property quantifies over structs with 1–6 members) and are the subject of a negation witness.
+* an empty struct occupies no bytes in HLSL and one byte in Metal (C++).  (Until /repo d25724e the checker gave
+  it 0 bytes in both modes and such types were outside `xwf`, the subject of a negation witness; now they are in.)
 -/
 namespace RsslVerif.Spec.LayoutFull
 open RsslVerif.Gen.LayoutTables RsslVerif.Model.Layout RsslVerif.Spec.Layout
@@ -125,7 +125,7 @@ def xwf : XTy → Bool
   | .vec s n => xsized s && (1 ≤ n && n ≤ 4)
   | .mat s r c _ => (s == .Float16 || s == .Float32) && (2 ≤ r && r ≤ 4) && (2 ≤ c && c ≤ 4)
   | .arr t n => decide (1 ≤ n) && xwf t
-  | .struct ms => (match ms with | .nil => false | .cons _ _ => true) && xwfAll ms
+  | .struct ms => xwfAll ms
   | .enum u => u == .Int32 || u == .UInt32
 def xwfAll : XTys → Bool
   | .nil => true
